@@ -119,6 +119,8 @@ def call(fn):
     otherwise wait in turn).  Only in a main thread (the worker processes' and the replay's)."""
     import signal
     import threading
+    if _HANGS[0] >= 5:
+        return {"err": "Hang", "out": []}        # this process has seen five queries loop: the run has its verdict, do not wait for more
     armed = threading.current_thread() is threading.main_thread()
     if armed:
         old = signal.signal(signal.SIGALRM, _on_alarm)
